@@ -111,5 +111,11 @@ def run(ctx):
                 "bits: retagging changes only the tag, untagging clears exactly the tag bits, is_inner reads the bit above them.")
     npt = eptr.run(ctx, F)
     ctx.floor("E-PTR.tagbits", "interpreted mask / accessor situations", npt, 11)
+    ctx.explain("E-FREELIST.sentinel: every constant that meets a free-list head (Cell::set / replace, pop().unwrap_or, comparisons) is "
+                "the end-of-list marker 0. E-FREELIST.countsign: the shared node count receives deltas by addition; subtractions are "
+                "`-= 1` only.")
+    nse = efreelist.check_sentinel(ctx, F)
+    ctx.floor("E-FREELIST.sentinel", "sentinel constants", nse, 7)
+    efreelist.check_count_signs(ctx, F)
     ctx.not_decided = ("exactness of counts over histories; the unsafe internals of the managers; "
                        "capacity restoration after gc")
